@@ -472,6 +472,48 @@ theorem serial_transactions_never_lost_partial (ds : List Delivery) (s : Store) 
     obtain ⟨l2, hg2, h2⟩ := ih (deliverSeq s d) l1 hg1
     exact ⟨l2, hg2, fun x hx => h2 x (h1 x hx)⟩
 
+/-- 0 chunk, 1 scratchpad, 2 transaction set, 3 register -/
+def fam : Content → Nat
+  | .chunk => 0
+  | .pad .. => 1
+  | .txs _ => 2
+  | .reg .. => 3
+
+/-- **A held record is never replaced by a record of another kind** — in particular a held scratchpad is
+never overwritten by the transaction set of the same owner (they share the key `H(owner)`), nor a held
+transaction set by a scratchpad. -/
+theorem cross_kind_never_overwrites (d : Delivery) (s : Store) (k : Nat) (c0 c : Content)
+    (hheld : s.get k = some c0) (hW : Tok.W k c ∈ (validate d s).2) : fam c = fam c0 := by
+  rw [validate_trace] at hW
+  obtain ⟨hk, hw, hwr⟩ := W_mem_inv hW
+  subst hk
+  have hh := imp_of_bool (tbl_put_over_held_same_kind d.client d.kind (obsOfAns d (seqAns d s)))
+    (and2 hw (held_seq hheld))
+  simp only [Bool.and_eq_true] at hh
+  rcases lOk_same_kind (by rw [seq_g, hheld]) hh.2 with
+    ⟨o, n, v, m, vm, hc, rfl⟩ | ⟨lt, l0, hc, rfl⟩ | ⟨id, b, ops, alt, l0, hc, rfl⟩
+  · rcases hwr with ⟨_, h⟩ | ⟨_, h⟩ <;> simp [h, written, hc, fam]
+  · rcases hwr with ⟨_, h⟩ | ⟨_, h⟩ <;> simp [h, written, hc, fam]
+  · rcases hwr with ⟨_, h⟩ | ⟨_, h⟩ <;> simp [h, written, hc, fam, seq_g, hheld]
+
+theorem deliverSeq_kind_preserved (d : Delivery) (s : Store) (k : Nat) (c0 : Content)
+    (hheld : s.get k = some c0) : ∃ c, (deliverSeq s d).get k = some c ∧ fam c = fam c0 := by
+  unfold deliverSeq
+  rcases applyToks_get (validate d s).2 s k with h | ⟨c, hm, hg⟩
+  · exact ⟨c0, by rw [h, hheld], rfl⟩
+  · exact ⟨c, hg, cross_kind_never_overwrites d s k c0 c hheld hm⟩
+
+/-- **Under per-key serialisation whatever is held under a key keeps its kind**, for any sequence of
+deliveries of any kinds on any path. -/
+theorem serial_kind_preserved_partial (ds : List Delivery) (s : Store) (k : Nat) (c0 : Content)
+    (hheld : s.get k = some c0) : ∃ c, (runSerial s ds).get k = some c ∧ fam c = fam c0 := by
+  induction ds generalizing s c0 with
+  | nil => exact ⟨c0, hheld, rfl⟩
+  | cons d rest ih =>
+    obtain ⟨c1, hg1, h1⟩ := deliverSeq_kind_preserved d s k c0 hheld
+    obtain ⟨c2, hg2, h2⟩ := ih (deliverSeq s d) c1 hg1
+    exact ⟨c2, hg2, by rw [h2, h1]⟩
+
 /-- a replicated transaction vector presented under key `k` -/
 def txVec (k : Nat) (l : List TxD) : Delivery := ⟨false, .tx, k, .txs l, none⟩
 
@@ -611,6 +653,9 @@ example : validate (upd 7) [(1, .pad 3 true)] = (.ok, [.G 1, .W 1 (.pad 7 true)]
 example : validate (upd 3) [(1, .pad 3 true)] = (.outdated, [.G 1]) := by decide
 example : (validate ⟨false, .pad, 1, .pad 0 9 false, none⟩ [(1, .pad 3 true)]).1 = .invalidSig := by decide
 example : runSerial [(1, .pad 3 true)] [upd 7, upd 5] = [(1, .pad 7 true)] := by decide
+/-- a transaction replicated to a key holding the owner's scratchpad is refused, and vice versa -/
+example : validate (txd 2) [(1, .pad 3 true)] = (.kindMismatch, [.G 1]) := by decide
+example : validate (upd 7) [(1, .txs [1])] = (.parse, [.G 1]) := by decide
 example : (validate ⟨false, .reg, 2, .reg 0 .good [⟨2, .v⟩, ⟨3, .u⟩], none⟩ [(2, .reg false [1])]).1 = .regInvalid := by decide
 
 end SafeNet.Props.C07
@@ -625,6 +670,8 @@ end SafeNet.Props.C07
 #print axioms SafeNet.Props.C07.invalid_or_foreign_never_stored
 #print axioms SafeNet.Props.C07.serial_scratchpad_never_regresses_partial
 #print axioms SafeNet.Props.C07.serial_transactions_never_lost_partial
+#print axioms SafeNet.Props.C07.cross_kind_never_overwrites
+#print axioms SafeNet.Props.C07.serial_kind_preserved_partial
 #print axioms SafeNet.Props.C07.concurrent_regress_witness
 #print axioms SafeNet.Props.C07.never_regresses_is_false
 #print axioms SafeNet.Props.C07.concurrent_tx_loss_witness
